@@ -458,7 +458,7 @@ func (wd *world) actAppend(t *rapid.T) {
 func (wd *world) actSelect(t *rapid.T) {
 	s := wd.anySess(t)
 	name := wd.existingName(t)
-	s.sel, s.view = nil, nil
+	s.sel, s.view, s.saved = nil, nil, nil
 	lines, st := wd.run(s, "SELECT", false, "SELECT "+quoteName(name))
 	b := wd.st.boxes[canonName(name)]
 	if (b != nil) != (st.Status == "OK") {
@@ -468,6 +468,7 @@ func (wd *world) actSelect(t *rapid.T) {
 		return
 	}
 	s.sel, s.name, s.view, s.seen = b, canonName(name), append([]*msg(nil), b.msgs...), b.version
+	s.saved = nil
 	if n := len(s.c.Obs.View); n != len(b.msgs) {
 		wd.fail("SELECT %s: EXISTS %d, model holds %d", name, n, len(b.msgs))
 	}
@@ -510,7 +511,7 @@ func (wd *world) actUnselect(t *rapid.T) {
 	}
 	verb := []string{"UNSELECT", "CLOSE"}[pick(t, "verb", 2)]
 	b := s.sel
-	s.sel, s.view = nil, nil
+	s.sel, s.view, s.saved = nil, nil, nil
 	_, st := wd.run(s, verb, false, verb)
 	if st.Status != "OK" {
 		wd.fail("%s: %s", verb, st.Raw)
@@ -753,7 +754,18 @@ func (wd *world) actSearch(t *rapid.T) {
 		parts = append(parts, k.String())
 		wd.classes["searchkey:"+k.kind]++
 	}
-	ret := []string{"", "", "", "RETURN (ALL) ", "RETURN (MIN MAX COUNT) ", "RETURN (COUNT ALL) ", "RETURN () "}[pick(t, "return", 7)]
+	ret := []string{"", "", "", "RETURN (ALL) ", "RETURN (MIN MAX COUNT) ", "RETURN (COUNT ALL) ", "RETURN () ", "RETURN (SAVE ALL) ", "RETURN (ALL SAVE) ", "RETURN (SAVE ALL) "}[pick(t, "return", 10)]
+	// "$": the result saved by an earlier SEARCH RETURN (SAVE) of this selection
+	useSaved := s.saved != nil && pick(t, "use$", 2) == 0
+	if useSaved {
+		form := []string{"$", "UID $", "NOT $"}[pick(t, "$form", 3)]
+		parts = append([]string{form}, parts...)
+		wd.classes["searchkey:$"]++
+	}
+	savedForm := ""
+	if useSaved {
+		savedForm = parts[0]
+	}
 	text := fmt.Sprintf("%sSEARCH %s%s", uidWord(uid), ret, strings.Join(parts, " "))
 	now := time.Now()
 	lines, st := wd.run(s, "SEARCH", uid, text)
@@ -766,6 +778,9 @@ func (wd *world) actSearch(t *rapid.T) {
 			for _, m := range b.msgs {
 				if _, ok := m.p.get("Date"); !ok {
 					wd.classes["search-not-judged:SENT*-on-message-without-Date"]++
+					if strings.Contains(ret, "SAVE") {
+						s.saved = nil // what was saved is not known to the model
+					}
 					return
 				}
 			}
@@ -780,6 +795,9 @@ func (wd *world) actSearch(t *rapid.T) {
 				break
 			}
 		}
+		if savedForm != "" && s.saved[m.uid] == (savedForm == "NOT $") {
+			ok = false
+		}
 		if ok {
 			if uid {
 				want = append(want, m.uid)
@@ -787,6 +805,19 @@ func (wd *world) actSearch(t *rapid.T) {
 				want = append(want, uint32(i+1))
 			}
 		}
+	}
+	if strings.Contains(ret, "SAVE") {
+		// the whole result is saved (no MIN/MAX/COUNT in these forms)
+		saved := map[uint32]bool{}
+		for i, m := range b.msgs {
+			for _, w := range want {
+				if (uid && w == m.uid) || (!uid && w == uint32(i+1)) {
+					saved[m.uid] = true
+				}
+			}
+		}
+		s.saved = saved
+		wd.classes["search:RETURN(SAVE)"]++
 	}
 	var got []uint32
 	seen := false
